@@ -187,3 +187,62 @@ def run_case(case):
     if w["s"] % 1000 or w["len"] % 1000:
         classes.append("sub_ms_edges")
     return {"nontrivial": direct_annot, "classes": classes, "evals": 1 + 2 * len(BUCKETS)}
+
+
+# ---------------------------------------------------------------------------
+# a bucket with more events than any sensible page size: query_bucket must still equal the direct read
+
+
+def extra_phases(tier, seed, jobs):
+    tasks = [{"backend": be, "n": n, "per": per, "seed": seed + k} for k, (be, n, per) in enumerate([("sqlite", 10_500, 3), ("peewee", 10_500, 2)] + ([("sqlite", 31_000, 7), ("peewee", 21_000, 1), ("memory", 4_000, 3)] if tier != "quick" else []))]
+    return [("large", "phase_large", tasks)]
+
+
+def _large(task):
+    from datetime import timedelta
+
+    from aw_core.models import Event
+    from aw_query import query
+
+    be, n, per = task["backend"], task["n"], task["per"]
+    with stores.store(be) as ds:
+        with sut(f"{be}: filling a bucket with {n} events"):
+            b = ds.create_bucket(BUCKETS[0], type="t", client="c", hostname="host1", created=gen.dt_utc(BASE_US))
+            # `per` events share each timestamp (ties), a second apart, each 1.5 s long (neighbours overlap)
+            b.insert([Event(timestamp=gen.dt_utc(BASE_US + (k // per) * 10**6), duration=timedelta(milliseconds=1500), data={"n": k}) for k in range(n)])
+        span = (n // per) * 10**6
+        for lo, hi in ((-10**6, span + 10**7), (span // 3 + 250_000, span + 10**7), (-10**6, (span * 2) // 3 + 1)):
+            S, E = gen.dt_utc(BASE_US + lo), gen.dt_utc(BASE_US + hi)
+            with sut(f"{be}: direct windowed read of a {n}-event bucket"):
+                direct = sorted(stores.ev_tuple(e) for e in ds[BUCKETS[0]].get(starttime=S, endtime=E))
+                dcount = ds[BUCKETS[0]].get_eventcount(starttime=S, endtime=E)
+            with sut(f"{be}: query_bucket on a {n}-event bucket"):
+                got = sorted(stores.ev_tuple(e) for e in query("q", f'RETURN = query_bucket("{BUCKETS[0]}");', S, E, ds))
+                gcount = query("q", f'RETURN = query_bucket_eventcount("{BUCKETS[0]}");', S, E, ds)
+            if got != direct or gcount != dcount:
+                missing = [x for x in direct if x not in set(got)][:3]
+                extra = [x for x in got if x not in set(direct)][:3]
+                raise Violation(
+                    f"{be}: bucket of {n} events ({per} per timestamp), window [{lo}, {hi}] us: query_bucket returned {len(got)} events (count {gcount}), "
+                    f"the direct windowed read {len(direct)} (count {dcount}); missing {missing} unexpected {extra}"
+                )
+    return n
+
+
+def phase_large(task):
+    from vlib.runner import Stats, case_hash
+
+    st_ = Stats()
+    try:
+        n = _large(task)
+    except Violation as v:
+        st_.failure = {"kind": "large", "case": task, "message": v.msg[:1500]}
+        return st_
+    st_.evals = 6
+    st_.classes[f"{task['backend']}_events"] = n
+    st_.nontrivial.add(case_hash(task))
+    return st_
+
+
+def replay_large(task):
+    _large(task)
